@@ -41,13 +41,13 @@ ASSUMPTIONS = [
     "injected crashes are Python exceptions; real process death (os._exit in a child, resume in a fresh process) is sampled",
 ]
 NSHARDS = {"quick": 16, "thorough": 32}
-PER_SHARD = {"quick": 5, "thorough": 60}
+PER_SHARD = {"quick": 5, "thorough": 28}
 
 
 def shards(tier, seed):
     return [
         {"n": PER_SHARD[tier], "maxdim": 7 if tier == "quick" else 9, "depth": 4 if tier == "quick" else 6,
-         "real": 1 if tier == "quick" else 8, "maxpoints": 22 if tier == "quick" else 40, "watchdog_s": TIMEOUT[tier] - 30}
+         "real": 1 if tier == "quick" else 4, "maxpoints": 22 if tier == "quick" else 40, "watchdog_s": TIMEOUT[tier] - 30}
         for _ in range(NSHARDS[tier])
     ]
 
@@ -413,10 +413,10 @@ def finalize(tier, merged):
     return {
         "rule": RULE,
         "floors": [
-            ("crash points followed by a resumed run", c.get("crash_points", 0), 1200 if tier == "quick" else 25000),
-            ("of which inside a task (chunk-write granularity)", c.get("write_granularity", 0), 400 if tier == "quick" else 9000),
-            ("resumed runs that completed and were compared", c.get("resumed_to_completion", 0), 800 if tier == "quick" else 16000),
-            ("real process crashes (os._exit) resumed from a fresh process", c.get("real_process_crashes", 0), 6 if tier == "quick" else 120),
+            ("crash points followed by a resumed run", c.get("crash_points", 0), 1200 if tier == "quick" else 14000),
+            ("of which inside a task (chunk-write granularity)", c.get("write_granularity", 0), 400 if tier == "quick" else 5000),
+            ("resumed runs that completed and were compared", c.get("resumed_to_completion", 0), 800 if tier == "quick" else 9000),
+            ("real process crashes (os._exit) resumed from a fresh process", c.get("real_process_crashes", 0), 6 if tier == "quick" else 60),
         ],
         "assumptions": ASSUMPTIONS,
     }
